@@ -35,6 +35,7 @@ def parseOp (toks : List String) : Option Op :=
   | ["detach"] => some .detach
   | ["copy", d, sv, o] => do some (.copy (← d.toNat?) (← sv.toNat?) (← o.toNat?))
   | ["scopy", d, sv, o] => do some (.copy (← d.toNat?) (← sv.toNat?) (← o.toNat?))   -- same bytes, source held in a SharedArrayBuffer
+  | ["fill", v, x, st, e] => do some (.fill (← v.toNat?) (← parseVal x) (← parseIntTok st) (← parseOptInt e))
   | ["cw", v, t, st, e] => do some (.copyWithin (← v.toNat?) (← parseIntTok t) (← parseIntTok st) (← parseOptInt e))
   | _ => none
 
